@@ -71,6 +71,10 @@ func ParseRaceLogs(paths []string) []RaceReport {
 					if strings.HasPrefix(fn, "runtime.") || strings.HasPrefix(fn, "sync/atomic.") || strings.HasPrefix(fn, "sync.") {
 						continue
 					}
+					// frames below the harness driver are stale shadow-stack garbage, not callers
+					if strings.HasPrefix(fn, "verifharness/") || strings.HasPrefix(fn, "main.") || strings.HasPrefix(fn, "testing.") {
+						break
+					}
 					name := fn
 					if k := strings.Index(name, "("); k > 0 {
 						name = name[:k]
